@@ -18,6 +18,7 @@ import (
 	"time"
 
 	"github.com/fiorix/go-diameter/diam"
+	"github.com/fiorix/go-diameter/diam/avp"
 	"github.com/fiorix/go-diameter/diam/datatype"
 	"github.com/fiorix/go-diameter/diam/dict"
 	"github.com/fiorix/go-diameter/diam/sm"
@@ -49,9 +50,10 @@ type Action struct {
 
 // Step is one update of the script with the faults of its exchanges.
 type Step struct {
-	Abmf    Action `json:"abmf"`    // the credit-control (reservation) exchange
-	Reserve Action `json:"reserve"` // the rating exchange that prices the reservation
-	GapMs   int    `json:"gapMs"`   // pause after this update
+	Abmf    Action `json:"abmf"`            // the credit-control (reservation) exchange
+	Reserve Action `json:"reserve"`         // the rating exchange that prices the reservation
+	GapMs   int    `json:"gapMs"`           // pause after this update
+	Final   bool   `json:"final,omitempty"` // the update carries a FINAL trigger: the rating group is settled (priced, then refund or final debit at the account server) instead of topped up
 }
 
 type Script struct {
@@ -197,6 +199,25 @@ func writeAnswer(c diam.Conn, a *diam.Message, act Action) error {
 	out := buf.Bytes()
 	if act.Kind == "dup" {
 		out = append(append([]byte{}, out...), out...)
+	}
+	if act.Kind == "dupfail" {
+		// the answer, followed in the same write by a copy that carries a failure result code
+		rej := *a
+		hdr := *a.Header
+		rej.Header = &hdr
+		rej.AVP = nil
+		for _, x := range a.AVP {
+			if x.Code != avp.ResultCode {
+				rej.AVP = append(rej.AVP, x)
+			} else {
+				rej.Header.MessageLength -= uint32(x.Len())
+			}
+		}
+		rej.AddAVP(diam.NewAVP(avp.ResultCode, avp.Mbit, 0, datatype.Unsigned32(diam.UnableToComply)))
+		var b2 bytes.Buffer
+		if _, err := rej.WriteTo(&b2); err == nil {
+			out = append(append([]byte{}, out...), b2.Bytes()...)
+		}
 	}
 	_, err := c.Write(out)
 	return err
@@ -411,8 +432,9 @@ func runScript(sc Script) scriptResult {
 	plansMu.Unlock()
 	now := time.Now()
 	nf := &models.ChfConvergedChargingNfIdentification{NFName: "smf", NodeFunctionality: "SMF"}
+	var final []models.ChfConvergedChargingTrigger
 	mk := func(used int32) models.ChfConvergedChargingChargingDataRequest {
-		return models.ChfConvergedChargingChargingDataRequest{SubscriberIdentifier: supi, ChargingId: 1, NfConsumerIdentification: nf, InvocationTimeStamp: &now, InvocationSequenceNumber: 1,
+		return models.ChfConvergedChargingChargingDataRequest{SubscriberIdentifier: supi, ChargingId: 1, NfConsumerIdentification: nf, InvocationTimeStamp: &now, InvocationSequenceNumber: 1, Triggers: final,
 			MultipleUnitUsage: []models.ChfConvergedChargingMultipleUnitUsage{{RatingGroup: 1, RequestedUnit: &models.RequestedUnit{TotalVolume: 10000},
 				UsedUnitContainer: []models.ChfConvergedChargingUsedUnitContainer{{QuotaManagementIndicator: models.QuotaManagementIndicator_ONLINE_CHARGING, TotalVolume: used, LocalSequenceNumber: 1}}}}}
 	}
@@ -439,8 +461,13 @@ func runScript(sc Script) scriptResult {
 		}
 		ch := make(chan out, 1)
 		t0 := time.Now()
+		final = nil
+		if st.Final {
+			final = []models.ChfConvergedChargingTrigger{{TriggerType: models.ChfConvergedChargingTriggerType_FINAL, TriggerCategory: models.TriggerCategory_IMMEDIATE_REPORT}}
+		}
+		body := mk(usedPerUpdate)
 		go func() {
-			rsp, pd := verifapi.Update(mk(usedPerUpdate), ref)
+			rsp, pd := verifapi.Update(body, ref)
 			ch <- out{rsp, pd}
 		}()
 		var o out
@@ -471,6 +498,47 @@ func runScript(sc Script) scriptResult {
 			} else if ex.role == "reserve" {
 				resEx = ex
 			}
+		}
+		if st.Final || pre.RatingType[1] == 2 {
+			// (a rating group whose last settlement ended with a debit of the excess stays in debit mode: its next
+			// report is settled, too)
+			// settlement: the usage is priced by the rating peer, the account peer refunds the rest of the reservation
+			// (or debits the excess); the reservation is cleared when - and only when - that exchange was answered
+			fdesc := fmt.Sprintf("update %d (settlement, took %.1f s) of script %+v: reservation %d -> %d; exchanges of this update: %s", i, el.Seconds(), sc, pre.Reserved[1], post.Reserved[1], describe(mine))
+			switch {
+			case abmfEx == nil:
+				if post.Reserved[1] != pre.Reserved[1] {
+					r.sig, r.msg = "crosstalk/abmf/final-settlement-without-exchange", fdesc+" -- no credit-control exchange took place, yet the reservation changed"
+					return r
+				}
+			case abmfEx.action.Kind == "boundary":
+				lateSeen = true
+				if post.Reserved[1] != 0 && post.Reserved[1] != pre.Reserved[1] {
+					r.sig, r.msg = "crosstalk/abmf/final-settlement", fdesc+" -- the settlement answer raced the timeout: the reservation must be cleared or untouched"
+					return r
+				}
+			case withheld(abmfEx.action):
+				lateSeen = true
+				if post.Reserved[1] != pre.Reserved[1] {
+					r.sig, r.msg = "crosstalk/abmf/acted-without-own-answer", fdesc+" -- the settlement answer of this update was withheld beyond the timeout, yet the reservation changed"
+					return r
+				}
+			default:
+				if post.Reserved[1] != 0 {
+					r.sig, r.msg = "own-answer-ignored/abmf-final", fdesc+" -- the settlement was answered in time but the reservation was not cleared"
+					return r
+				}
+			}
+			r.labels = append(r.labels, "final-settlement:"+func() string {
+				if abmfEx == nil {
+					return "none"
+				}
+				return abmfEx.action.Kind
+			}())
+			if i < len(sc.Steps) && st.GapMs > 0 {
+				time.Sleep(time.Duration(st.GapMs) * time.Millisecond)
+			}
+			continue
 		}
 		// the reported usage is priced with the tariff the update's own first rating enquiry was answered with;
 		// delta is the change of the reservation apart from that price
@@ -770,7 +838,9 @@ func TestC18Surplus(t *testing.T) {
 }
 
 func genAction(t *rapid.T, n string) Action {
-	switch rapid.SampledFrom([]string{"prompt", "prompt", "slow", "late", "late", "drop", "dup", "boundary", "boundary", "held", "held"}).Draw(t, n) {
+	switch rapid.SampledFrom([]string{"prompt", "prompt", "slow", "late", "late", "drop", "dup", "dupfail", "boundary", "boundary", "held", "held"}).Draw(t, n) {
+	case "dupfail":
+		return Action{Kind: "dupfail"}
 	case "held":
 		return Action{Kind: "held", Ms: rapid.SampledFrom([]int{0, 2000, 4800}).Draw(t, n+"HeldMs")}
 	case "dup":
@@ -791,7 +861,7 @@ func genScript(t *rapid.T) Script {
 	var sc Script
 	n := rapid.IntRange(2, 3).Draw(t, "nSteps")
 	for i := 0; i < n; i++ {
-		st := Step{Abmf: genAction(t, "abmf"), Reserve: Action{Kind: "prompt"}, GapMs: rapid.SampledFrom([]int{0, 0, 600, 2000}).Draw(t, "gap")}
+		st := Step{Abmf: genAction(t, "abmf"), Reserve: Action{Kind: "prompt"}, GapMs: rapid.SampledFrom([]int{0, 0, 600, 2000}).Draw(t, "gap"), Final: rapid.IntRange(0, 3).Draw(t, "final") == 0}
 		if rapid.IntRange(0, 3).Draw(t, "faultRating") == 0 {
 			st.Reserve = genAction(t, "reserve")
 		}
@@ -814,6 +884,10 @@ func genBatch(t *rapid.T) Batch {
 	b.Scripts = append(b.Scripts,
 		Script{Steps: []Step{{Abmf: Action{Kind: "held", Ms: 4800}, Reserve: Action{Kind: "prompt"}}, {Abmf: Action{Kind: "prompt"}, Reserve: Action{Kind: "prompt"}}}},
 		Script{Steps: []Step{{Abmf: Action{Kind: "prompt"}, Reserve: Action{Kind: "held", Ms: 4800}}, {Abmf: Action{Kind: "prompt"}, Reserve: Action{Kind: "prompt"}}}})
+	// a settlement (FINAL) whose account answer is late, then further requests; an answer followed by a rejecting copy
+	b.Scripts = append(b.Scripts,
+		Script{Steps: []Step{{Abmf: Action{Kind: "prompt"}, Reserve: Action{Kind: "prompt"}}, {Abmf: Action{Kind: "late", Ms: 6500}, Reserve: Action{Kind: "prompt"}, Final: true}, {Abmf: Action{Kind: "prompt"}, Reserve: Action{Kind: "prompt"}}}},
+		Script{Steps: []Step{{Abmf: Action{Kind: "prompt"}, Reserve: Action{Kind: "dupfail"}}, {Abmf: Action{Kind: "dupfail"}, Reserve: Action{Kind: "prompt"}}, {Abmf: Action{Kind: "prompt"}, Reserve: Action{Kind: "prompt"}}}})
 	n := h.Scale(12, 20)
 	for i := 0; i < n; i++ {
 		b.Scripts = append(b.Scripts, genScript(t))
